@@ -125,7 +125,7 @@ def model_check(ctx, name, scn, bounds, prefixes, workers=None, timeout=2400, he
     """exhaustive TLC run of Stmt on one scenario: design check. A counterexample here is only a
     prediction (returned as list of violated names); the real code is judged by the traces."""
     d = vlib.prepare_spec_dir(ctx, "mc-" + name)
-    consts = dict(bounds, Cfg=tla(scn), **code_variant())
+    consts = dict(bounds, Cfg=tla(scn))
     names = model_invariants(prefixes)
     invs = ["TypeOK"] + [n for n in names if n not in ACTION_PROPS]
     props = [n for n in names if n in ACTION_PROPS]
@@ -171,7 +171,7 @@ def compact(l):
 def export_paths(ctx, name, scn, bounds, timeout=2400, heap="6g"):
     """every transition of the state graph as a labelled path from Init (BFS tree path + the edge)."""
     d = vlib.prepare_spec_dir(ctx, "gen-" + name)
-    consts = dict(bounds, Cfg=tla(scn), **code_variant())
+    consts = dict(bounds, Cfg=tla(scn))
     mod, cfg = vlib.write_model(d, MODULE, "Stmt_gen", consts, spec="Spec", action_constraints=["PathOut"], view="view")
     r = vlib.tlc(ctx, d, mod, cfg, workers=1, timeout=timeout, heap=heap)
     if not r.ok:
@@ -213,12 +213,6 @@ def replay_paths(ctx, binary, name, scn, leaves):
 # ------------------------------------------------------------------------------------------------
 TV_CONSTS = dict(Cfg="0", MaxOps="0", MaxFail="0", MaxStmts="0")
 
-
-def code_variant():
-    """behaviour switches of Stmt.tla that follow the source under check (transitional: a repair of Commit's failed-bind
-    path may or may not be in the tree)."""
-    src = open(os.path.join(vlib.REPO, "pkg/scheduler/framework/statement.go")).read()
-    return dict(BindFailUndoesRest="TRUE" if "undoOperationsFrom(i + 1)" in src else "FALSE")
 
 
 def features(prefix):
@@ -341,7 +335,7 @@ def validate(ctx, trace_path, prefixes, label, timeout=3000, heap="8g", per_sign
         raise vlib.Infra("StmtTrace!Report does not evaluate %s" % (missing or prefixes))
     d = vlib.prepare_spec_dir(ctx, "tv-" + label)
     os.symlink(os.path.abspath(trace_path), os.path.join(d, "trace.ndjson"))
-    mod, cfg = vlib.write_model(d, TRACE, TRACE + "_tv", dict(TV_CONSTS, StopOn=json.dumps(stop), **code_variant()), spec="TraceSpec",
+    mod, cfg = vlib.write_model(d, TRACE, TRACE + "_tv", dict(TV_CONSTS, StopOn=json.dumps(stop)), spec="TraceSpec",
                                 constraints=["Report"])
     r = vlib.tlc(ctx, d, mod, cfg, workers=min(vlib.NCPU, 8), timeout=timeout, heap=heap)
     if not r.ok:
